@@ -2,7 +2,9 @@
 """Prints the prompt for an independent seeding agent for one property (only the property text + worktree)."""
 import json, sys
 pid = sys.argv[1]
-wt = f'/tmp/seed-{pid}'
+tag = sys.argv[2] if len(sys.argv) > 2 else pid
+hint = sys.argv[3] if len(sys.argv) > 3 else ''
+wt = f'/tmp/seed-{tag}'
 p = next(json.loads(l) for l in open('/verif/properties.jsonl') if json.loads(l)['id'] == pid)
 print(f"""You are helping evaluate a verification effort by producing ONE realistic defect. Work ONLY inside the git worktree {wt} (a checkout of the repository populationgenomics/hail: Python genomics query front end + batch job scheduler service). Do not read or write anything under /verif or /repo, and do not look at other /tmp/seed-* directories.
 
@@ -18,7 +20,7 @@ Task: make a small, realistic change to the source under {wt} (the kind of slip 
   (a) everything still imports/compiles, and
   (b) the repository's pinned test suite still passes: run  `cd {wt} && /venv/bin/python -m pytest -q -p no:cacheprovider auth/test/test_auth_utils.py`  (63 tests; most other test directories cannot run in this sandbox because third-party packages are missing — that is expected), and
   (c) the breakage needs something specific to manifest — a particular interleaving, a fault at a particular point, a multi-step sequence of operations, an unusual input, or two cooperating sites — NOT something ordinary use would expose at once.
-Prefer a change in the code the property is anchored in. Keep it to a few lines. Do not add comments that give the change away.
+Prefer a change in the code the property is anchored in. Keep it to a few lines. Do not add comments that give the change away. Do not simply revert or weaken a recent commit of the repository (look at `git log -15 --stat` and stay away from what those commits touched). {hint}
 
 Then write a demonstration: a small self-contained program `{wt}/demo_{pid}.py` (run with `/venv/bin/python demo_{pid}.py` from {wt}) that exits non-zero / fails an assertion WITH your change and passes (exit 0) WITHOUT it (verify both: use `git stash` / `git stash pop` or `git diff > /tmp/seed-{pid}.diff; git checkout -- .; ...; git apply`). Many third-party packages (orjson, pymysql, aiomysql, jinja2, google.*, pyspark, numpy in /venv ...) are NOT installed and there is NO MySQL server and NO JVM build of the engine; the demonstration may therefore stub missing imports (e.g. insert fake modules into sys.modules before importing the target file, or load just the function under test with importlib / ast), or, for SQL / Scala changes that cannot be executed here, be a small faithful simulation of the changed statement's logic over in-memory tables with a clear explanation. Nothing can be installed.
 
